@@ -53,6 +53,11 @@ with file:line):
              function, where BODY and HANDLER end in `return`, BODY contains no
              operation that can raise other than subscripts of a trie cursor, no
              `while`, no call, and stores nothing the HANDLER reads.
+             l1 + l2 of lists of strings (a new list);  self._helper(a, b, ...) as a statement, for
+             a private method of the class that is not translated on its own, returns nothing,
+             binds no name and is called with names / constants: read as the statements of its
+             body (parameters replaced by the arguments, early `return`s as the conditionals
+             they abbreviate) - so a helper is tied exactly like the code it was extracted from.
   layout     as in translate_detect.py.
   keyboard_walk.py only (class FT3, see its docstring): layouts (the value of a
              zero-argument function that returns a dict literal of one-character rows),
@@ -243,6 +248,20 @@ class FT2(TD.FunctionTranslator):
             if (ta, tb) != (Z, Z):
                 self.fail(e, "unsupported arithmetic (%s * %s)" % (tname(ta), tname(tb)))
             return "%s * %s" % (_paren(a), _paren(b)), Z
+        if isinstance(e, ast.BinOp) and isinstance(e.op, ast.Add):
+            uid = self.uid
+            H0 = [] if H is not None else None
+            try:
+                a, ta = self.expr(e.left, env, H0)
+                b, tb = self.expr(e.right, env, H0)
+            except NeedsHoist:
+                raise
+            if ta == STRLIST and tb == STRLIST:
+                # l1 + l2: a new list
+                if H is not None:
+                    H.extend(H0)
+                return "%s ++ %s" % (_paren(a), _paren(b)), STRLIST
+            self.uid = uid
         if isinstance(e, ast.List) and e.elts and not all(isinstance(x, ast.Constant) for x in e.elts):
             parts = []
             for x in e.elts:
@@ -323,6 +342,14 @@ class FT2(TD.FunctionTranslator):
     # -------------------------------------------------------------- analysis
     def assigned(self, stmts):
         out = super().assigned(stmts)
+        # what an inlined helper assigns (only stores through its parameters: the arguments)
+        for s in stmts:
+            for n in ast.walk(s):
+                if isinstance(n, ast.Call) and self.is_self_attr(n.func) and n.func.attr in getattr(self, "helpers", {}) \
+                        and self.method_spec(n) is None:
+                    for x in self.assigned(self.inline_helper(n, n)):
+                        if x not in out:
+                            out.append(x)
         # a store through a cursor changes the trie
         for s in stmts:
             for n in ast.walk(s):
@@ -520,8 +547,90 @@ class FT2(TD.FunctionTranslator):
             self.fail(s, "unsupported operation on a trie cursor")
         return super().augassign(s, rest, env, ctx, ind, at)
 
+    def inline_helper(self, s, c):
+        """self._helper(a, b, ...) as a statement, for a private method of the class that is not translated on its
+        own and returns nothing: the statements of its body with the parameters replaced by the arguments (names
+        or constants: evaluated once, no effect) and its early `return`s turned into the conditionals they
+        abbreviate (`if c: return` + REST  ->  `if c: pass else: REST`).  The helper may not bind a name (it
+        would leak into the caller) - stores through a trie cursor are what it is for."""
+        fn = self.helpers[c.func.attr]
+        a = fn.args
+        if fn.decorator_list or a.vararg or a.kwarg or a.kwonlyargs or a.posonlyargs or a.defaults or fn.returns \
+                or any(x.annotation for x in a.args) or not a.args or a.args[0].arg != "self":
+            self.fail(fn, "unsupported signature of the helper %s" % fn.name)
+        params = [x.arg for x in a.args][1:]
+        if c.keywords or len(c.args) != len(params) or len(set(params)) != len(params):
+            self.fail(s, "unsupported call of the helper %s" % fn.name)
+        for x in c.args:
+            if not (isinstance(x, ast.Name) or (isinstance(x, ast.Constant) and type(x.value) in (int, bool, str))):
+                self.fail(s, "the arguments of the helper %s must be names or constants" % fn.name)
+        for n in ast.walk(fn):
+            if isinstance(n, ast.Name) and isinstance(n.ctx, (ast.Store, ast.Del)):
+                self.fail(n, "the helper %s binds a name" % fn.name)
+            if isinstance(n, ast.Return) and n.value is not None and not (isinstance(n.value, ast.Constant) and n.value.value is None):
+                self.fail(n, "the helper %s returns a value" % fn.name)
+            if isinstance(n, (ast.For, ast.While, ast.Try, ast.With, ast.Lambda, ast.FunctionDef, ast.ListComp, ast.GeneratorExp)) \
+                    and n is not fn:
+                self.fail(n, "unsupported construct in the helper %s" % fn.name)
+            if isinstance(n, ast.Call) and self.is_self_attr(n.func) and n.func.attr in self.helpers:
+                self.fail(n, "a helper that calls a helper")
+        table = dict(zip(params, c.args))
+
+        class Subst(ast.NodeTransformer):
+            def visit_Name(self, node):
+                if node.id in table:
+                    return ast.copy_location(ast.parse(ast.unparse(table[node.id]), mode="eval").body, node)
+                return node
+
+        body = [Subst().visit(ast.parse(ast.unparse(st)).body[0]) for st in fn.body]
+        for st, orig in zip(body, fn.body):
+            for n in ast.walk(st):
+                if hasattr(n, "lineno"):
+                    n.lineno = n.lineno + orig.lineno - 1
+        for st in body:
+            ast.fix_missing_locations(st)
+
+        def always_returns(stmts):
+            if not stmts:
+                return False
+            t = stmts[-1]
+            if isinstance(t, ast.Return):
+                return True
+            return isinstance(t, ast.If) and always_returns(t.body) and always_returns(t.orelse)
+
+        def has_return(stmts):
+            return any(isinstance(n, ast.Return) for st in stmts for n in ast.walk(st))
+
+        def conv(stmts):
+            out = []
+            for i, st in enumerate(stmts):
+                later = list(stmts[i + 1:])
+                if isinstance(st, ast.Return):
+                    if later:
+                        self.fail(later[0], "unreachable statement in the helper %s" % fn.name)
+                    return out
+                if isinstance(st, ast.If) and has_return([st]):
+                    tb, eb = list(st.body), list(st.orelse)
+                    if always_returns(tb):
+                        new = ast.If(test=st.test, body=conv(tb) or [ast.Pass()], orelse=conv(eb + later))
+                    elif always_returns(eb):
+                        new = ast.If(test=st.test, body=conv(tb + later) or [ast.Pass()], orelse=conv(eb))
+                    else:
+                        new = ast.If(test=st.test, body=conv(tb + later) or [ast.Pass()], orelse=conv(eb + later))
+                    out.append(ast.fix_missing_locations(ast.copy_location(new, st)))
+                    return out
+                out.append(st)
+            return out
+
+        return conv(body)
+
     def effect(self, s, rest, env, ctx, ind, at):
         c = s.value
+        if isinstance(c, ast.Call) and self.is_self_attr(c.func) and c.func.attr in getattr(self, "helpers", {}) \
+                and self.method_spec(c) is None:
+            stmts = self.inline_helper(s, c)
+            text = self.line(ind, "(* %s inlined *)" % c.func.attr, s)
+            return text + self.block(stmts + rest, env, ctx, ind, at)
         if isinstance(c, ast.Call) and isinstance(c.func, ast.Attribute) and c.func.attr == "insert" \
                 and isinstance(c.func.value, ast.Name) and len(c.args) == 2 and not c.keywords:
             x = c.func.value.id
@@ -815,8 +924,10 @@ def render_mw(repo=None):
     finally:
         TD.BUILTINS_USED.clear()
         TD.BUILTINS_USED.update(old)
-    if set(defs) != set(names):
-        raise TranslateError("%s: class %s has the methods %r, the translator knows %r"
+    # methods besides the known ones: private helpers, read where they are called (inlined)
+    helpers = {n: f for n, f in defs.items() if n not in names}
+    if not set(names) <= set(defs) or any(not n.startswith("_") or n.startswith("__") for n in helpers):
+        raise TranslateError("%s: class %s has the methods %r, the translator knows %r (and private helpers)"
                              % (path, MW_CLASS, sorted(defs), sorted(names)))
     attrs = mw_attrs(path, defs["__init__"])
     head = "(* %s  class %s  def __init__: the attributes are inlined as\n   %s *)\n" % (
@@ -824,7 +935,9 @@ def render_mw(repo=None):
     parts, done = [head], {}
     for spec in MW_SPECS:
         fn = defs[spec["py"]]
-        parts.append(FT2(path, MW_FILE, fn, spec, dict(done), MW_CLASS, attrs=attrs).translate() + defaults_text(fn, spec, MW_CLASS))
+        ft = FT2(path, MW_FILE, fn, spec, dict(done), MW_CLASS, attrs=attrs)
+        ft.helpers = helpers
+        parts.append(ft.translate() + defaults_text(fn, spec, MW_CLASS))
         done[spec["py"]] = spec
     return MW_HEAD + "\n".join(parts) + "\nEnd DetectMwGen.\n"
 
